@@ -5,11 +5,17 @@
 (* exception class, or timeout).  x is the operand whose method is called, y the other one -     *)
 (* which may be the same object, or share its column lists with x (field shape, see JoinCalls);  *)
 (* the law is the same for every shape: Join(x, y, lk, rk, mode) on the two values.              *)
-EXTENDS JoinCalls, Batch
+(* Lines with the field sess are steps of a session (JoinSess.tla): calls between objects of a   *)
+(* pool of caller-owned tables / dicts / Dicts / DataFrames and the caller's own edits, the      *)
+(* whole pool read before and after.  Key cells may be abstract (<<"k", <<class, ..>>>>,          *)
+(* Join.tla): the law only asks which keys are equal.                                            *)
+EXTENDS JoinSess, Batch
 
-IsCols(ks) == \A k \in 1..Len(ks) : ks[k][1] = "col"
 Has(o, f) == f \in DOMAIN o
+IsCols(ks) == \A k \in 1..Len(ks) : ks[k][1] = "col"
 Verdict(o) ==
+    IF Has(o, "sess") THEN StepVerdict(o)          \* a step of a session on a pool of caller-owned objects (JoinSess.tla)
+    ELSE
     LET x == o.x  y == o.y  lk == o.lk  rk == o.rk  out == o.out IN
     IF o.implicit /\ lk # [k \in 1..Len(Common(x, y)) |-> <<"col", Common(x, y)[k]>>] THEN "harness_domain_error"
     ELSE IF Has(o, "shape") /\ o.shape = "same" /\ x # y THEN "harness_domain_error"       \* one object has one value
